@@ -388,6 +388,20 @@ def run(tier):
         seg_dis, seg_stats = segmodel.check_writes(seg_plan, ans)
         disagreements += seg_dis
         chk.coverage['segment_model'] = seg_stats
+        # search: the numpy oracles on the trees where model and implementation part ways (random partitions of the same tree)
+        if seg_dis:
+            tmp2 = tempfile.mkdtemp(prefix='c07s_', dir=os.environ.get('VERIF_SCRATCH', '/var/tmp'))
+            try:
+                for dsg in seg_dis[:8]:
+                    try:
+                        shape = segtree.full_shape_of(dsg['tree'])
+                    except Exception:
+                        continue
+                    for _ in range(3):
+                        chunks = rand_partition(rng, shape, allow_stride=True)
+                        check_case(dsg['tree'], chunks, ['sub'] * len(chunks), tmp2, fails, stats, [])
+            finally:
+                shutil.rmtree(tmp2, ignore_errors=True)
         for (case, line, flat, flag, nassign), i in zip(drv_jobs, idx):
             store, _, tail = ans[i].partition(' | ')
             cells = store.split(',') if store else []
